@@ -1046,6 +1046,10 @@ func body(r *ev.Run) {
 		caseID := fmt.Sprintf("bookkeeping/%d", i)
 		r.Do(caseID, func() { bookkeepingFault(r, caseID, i) })
 	}
+	for i := 0; i < r.Pick(3, 12); i++ {
+		caseID := fmt.Sprintf("many/%d", i+2)
+		r.Do(caseID, func() { manyWebhooks(r, caseID, i+2) })
+	}
 	nSeq := r.Pick(400, 8000)
 	nOps := 40
 	tries := []int{1, 2, 3, 10}
